@@ -14,12 +14,15 @@ ASSUMPTIONS = ["equality of optimal values / instances as numbers is not decided
 
 
 def run(ctx):
+    from . import entryprog
+    entryprog.r_entry(ctx)       # the back-end asked for is the back-end used (or cvxpy when it cannot run), recorded under its own name
     wrappers.r_iface(ctx)
     wrappers.r_track(ctx)
     wrappers.r_sense(ctx)
     wrappers.r_sign(ctx)
     wrappers.r_rowidx(ctx)
     nb = wrappers.r_baridx(ctx)
+    wrappers.r_lmiorder(ctx)     # ... and, as long as matrix variables are numbered by creation, in which order the solve root may send LMIs
     no = wrappers.r_objslot(ctx)
     wrappers.r_heur(ctx)
     wrappers.r_lmienc(ctx)
